@@ -40,7 +40,10 @@ def own_count(name, h, s, r):
     core.import_impl()
     from ffpack import utils
     d = utils.sequenceDigitization(cyc.floats(h, s), r * 2.0 ** -s)
-    dh = [to_grid(v, s) for v in d]
+    try:
+        dh = [to_grid(v, s) for v in d]
+    except OffGrid as e:
+        return None, {'error': 'digitised-offgrid:' + str(e)}
     return dh, cyc.run_impl(name, dh, s)
 
 
@@ -66,6 +69,12 @@ def explore(res, rng, n):
             res.evaluations += 1
             res.stat('fn_' + name)
             dh, own = own_count(name, h, s, r)
+            if dh is None:
+                # k * resolution is exact on the binary grid, so an off-grid digitised value is not a multiple of the resolution
+                res.failures.append({'signature': f'C07:digitise:offgrid:{enc_list(h)}:{s}:{r}',
+                                     'clause': 'sequenceDigitization returned a value that is not a multiple of the resolution: ' + own['error'],
+                                     'api': 'sequenceDigitization', 'input': h, 'scale': s, 'resolution': r})
+                continue
             if len(set(dh)) > 1:
                 res.nontrivial.add((name, tuple(h), r))
             if 'error' in own:
